@@ -110,6 +110,7 @@ func structView(spec *common.Spec, v any) (root [32]byte, has bool, err error) {
 
 type rootsInfo struct {
 	viewChecked, structViewChecked bool
+	derived                        int
 	atLimit, nonEmpty              int
 	nonDef, fixed                  bool
 }
@@ -198,6 +199,12 @@ func runRoots(c *Case) (*report.Failure, *rootsInfo) {
 			return report.Failf(c.Type+"/HashTreeRoot/struct.View()-differs-from-spec", "%s root of struct.View() %x, struct root %x, SSZ merkleization gives %x; value %s", tag, sroot, got, want, short(B)), info
 		}
 		info.structViewChecked = true
+	}
+	// summary forms derived by the library (headers, shallow bodies) keep the root
+	if f, n := derivedForms(p.Spec, c.Type, tag, o.V, want, B); f != nil {
+		return f, info
+	} else {
+		info.derived = n
 	}
 	return nil, info
 }
@@ -332,7 +339,7 @@ func TestCheck(t *testing.T) {
 	for _, f := range reg.Forks {
 		r.Mandatory("history:" + f)
 	}
-	r.Mandatory("history:copy-then-mutate-both", "history:list-longer-than-one-chunk", "shape:at-limit", "roots:view-form", "roots:struct.View()", "roots:zero-value-struct")
+	r.Mandatory("history:copy-then-mutate-both", "history:list-longer-than-one-chunk", "shape:at-limit", "roots:view-form", "roots:struct.View()", "roots:zero-value-struct", "roots:derived-forms(header,shallow-body)", "roots:shallow-body-round-trip")
 	r.S.Extra["types_with_view_typedef"] = nview
 	r.S.Extra["registered_types"] = len(types)
 
@@ -351,6 +358,13 @@ func TestCheck(t *testing.T) {
 		if info.structViewChecked {
 			r.Hit("roots:struct.View()")
 			r.Class("roots:struct.View()")
+		}
+		if info.derived > 0 {
+			r.Hit("roots:derived-forms(header,shallow-body)")
+			r.ClassN("roots:derived-forms-judged", int64(info.derived))
+			if info.derived >= 3 {
+				r.Hit("roots:shallow-body-round-trip")
+			}
 		}
 		r.Class("value:" + p.Family + ":" + c.Shape)
 		if info.nonDef && (info.fixed || info.nonEmpty > 0) {
